@@ -309,6 +309,7 @@ func C11(c *Ctx) {
 	c.emptiedDocRule("C11-12")
 	c.keptLinesMoveRule("C11-13")
 	c.filterAfterLookupsRule("C11-14")
+	c.methodDocFilterRule("C11-15")
 
 	r.Rule("C11-6", "util.ExtractMatchComments visits every comment of the group (the loop has no exit other than exhaustion), appends every matching comment to the removed list and every non-matching one after the first match to the kept list")
 	if fn := c.MustFunc("C11-6", "/pkg/util", "ExtractMatchComments"); fn != nil {
